@@ -75,6 +75,7 @@ def rotosolve(func, var_params, *func_args, ftol=1e-5, maxiter=100):
      """
     # Get intial value, and run rotosolve for up to maxiter iterations
     energy_old = func(var_params, *func_args)
+    energy_new = energy_old
     for it in range(maxiter):
         # Update parameters one at a time using rotosolve_step
         for i in range(len(var_params)):
